@@ -118,7 +118,40 @@ def _merge_tags_checked(chk, prog, override):
     return True, ""
 
 
+def constructor_table_writers(chk):
+    """O18.8: the loader's constructor table (with the rejecting catch-all entry for unknown tags) only ever GROWS, through
+    add_constructor / add_multi_constructor.  Anything that empties, replaces or removes from it -- a 'reset' after a
+    rejected document -- removes the catch-all: every later document with an offending tag is accepted"""
+    prog = chk.program
+    rule = "O18.8"
+    n = 0
+    ok = True
+    TABLES = ("yaml_constructors", "yaml_multi_constructors")
+    for mod in prog.modules.values():
+        par = util.parents_map(mod.tree)
+        for x in ast.walk(mod.tree):
+            if not (isinstance(x, ast.Attribute) and x.attr in TABLES):
+                continue
+            n += 1
+            chk.count()
+            up = par.get(id(x))
+            what = None
+            if isinstance(x.ctx, (ast.Store, ast.Del)):
+                what = "re-binds / deletes the table"
+            elif isinstance(up, ast.Attribute) and up.value is x and up.attr in ("clear", "pop", "popitem", "update", "setdefault", "__delitem__", "__setitem__"):
+                what = "calls .%s() on it" % up.attr
+            elif isinstance(up, ast.Subscript) and up.value is x and isinstance(up.ctx, (ast.Store, ast.Del)):
+                what = "stores to / deletes an entry of it"
+            if what:
+                fi = prog.enclosing_function(mod, x)
+                chk.bad(rule, fi.qual if fi else mod.name, "%s %s: the table holds the catch-all entry that rejects python/* and unregistered tags (and the standard YAML types); after that every later document in this process is loaded without it" % (util.unparse(x), what), node=x, stmt="constructor-table %s" % what)
+                ok = False
+    if ok:
+        chk.ok(rule, "<package>", "%d reads of the loader's constructor tables, no write besides add_constructor / add_multi_constructor" % n)
+
+
 def run(chk):
+    chk.guard("O18.8", "<package>", constructor_table_writers, chk)
     # the document is read while its stream is open (shared with C13)
     from . import c13
 
